@@ -76,6 +76,9 @@ TYPES = [
                          F("sp", M(P("string")), default="{\"first key\":\"a\\tb c\"}"), F("req", P("int32"))]),
     record("DefAfter", [F("n", P("int32"), default="3"), F("s", P("string")), F("arr", A(P("int32")), optional=True), F("inner", R("DefPrims")), F("tail", R("DefContainers"))]),
     record("DefOuter", [F("inner", R("DefPrims")), F("n", P("int32"), default="3"), F("oinner", R("DefPrims"), optional=True)]),
+    # annotated field names that are STRING prefixes (not path prefixes) of one another
+    record("Pfx", [F("name", P("string")), F("created", P("int64"), optional=True), F("createdBy", P("string"), optional=True),
+                   F("address", R("Leaf"), optional=True), F("addressLine2", P("string"), optional=True)]),
     record("KeyPart", [F("id", P("string")), F("n", P("int64"))]),
     record("KeyParams", [F("p", P("string"))]),
     named("complexKey", "CK", Key={"name": "KeyPart", "namespace": NS}, Params={"name": "KeyParams", "namespace": NS}),
@@ -127,6 +130,8 @@ RESOURCES = [
     # exclusion shapes of their own: a directive naming a whole record-typed field; create-only annotations without any read-only one
     resource([seg("collRO", "collROId", P("int64"))], R("Ent"), rest(["get", "create", "update", "partial_update", "batch_partial_update"]), ro=["nested"]),
     resource([seg("collCO", "collCOId", P("int64"))], R("Ent"), rest(["get", "create", "update", "partial_update", "batch_update"]), co=["created"]),
+    resource([seg("collPfx", "collPfxId", P("int64"))], R("Pfx"), rest(["get", "create", "update", "partial_update", "batch_update"]),
+             ro=["created", "address"], co=["createdBy", "addressLine2"]),
     resource([seg("collCK", "collCKId", R("CK"))], R("Leaf"),
              rest(["get", "create", "batch_get", "batch_update", "batch_partial_update", "batch_delete"])),
     # declared query parameters on rest methods: names sorting before and after the reserved `ids`, and only before it
